@@ -191,6 +191,8 @@ def run(ctx):
             pws += gen_passwords.CONTEXT_CASE_CORPUS      # context strings in a capitalisation the trainer's list does not contain
             pws += gen_passwords.REPEATED_CONTEXT_CORPUS  # the same context string several times in one section
             pws += gen_passwords.DETECTOR_ORDER_CORPUS    # several detectors in one password, labelled sections before and behind
+            # a capital dotted I (lower-casing: two code points) next to an i that carries its combining dot already, in one section
+            pws += ['\u0130zmi\u0307r2024', '\u0130i\u0307www.google.com', 'I\u0307stanbul\u0130#1', 'i\u0307\u0130pass']
         if i == 2:
             pws = gen_passwords.FRESH_LENGTHS_CORPUS + pws
         if not tame:
